@@ -118,9 +118,18 @@ pub fn load_fuzz<K: Tgt>(cx: &mut Ctx, bytes: &[u8], info: &Info, counter: &'sta
     let calls_before = hexane::verif_hooks::unchecked_calls();
     cx.count(counter);
     let small_ms = 2 + (fnv(bytes) % 7) as usize;
-    for variant in 0..2 {
-        let how = if variant == 0 { "load".to_string() } else { format!("load_with(max_segments={small_ms})") };
-        let r = catch(|| if variant == 0 { K::load(bytes) } else { K::load_ms(bytes, small_ms) });
+    let pulls = (fnv(bytes) >> 8) as usize % 6;
+    for variant in 0..3 {
+        let how = match variant {
+            0 => "load".to_string(),
+            1 => format!("load_with(max_segments={small_ms})"),
+            _ => format!("load_iter + {pulls}x try_next_run + finalize"),
+        };
+        let r = catch(|| match variant {
+            0 => K::load(bytes),
+            1 => K::load_ms(bytes, small_ms),
+            _ => K::load_stream(bytes, pulls),
+        });
         let col = match r {
             Err(p) => {
                 cx.violation(&format!("c35|{}|load|{}", crate::c34::family_name::<K>(), panic_sig(&p)), format!("{}::{how} panicked on untrusted bytes: {p}", K::NAME), detail::<K>(bytes, info, json!({})));
